@@ -775,6 +775,38 @@ func runC09R5(c *Ctx, r *Rep) {
 		r.check(idx["wait"] < idx["close"], key+"wait before done", onceLit.Body.List[idx["close"]].Pos(), "wait ≺ close(done)",
 			"Done is signalled before Close has waited for the admitted executions")
 	}
+	// the context mutex is released before the callbacks run and Done is signalled: a callback (or a waiter on Done)
+	// that asks the context for anything takes the same mutex in the admission method
+	locked, deferredUnlock := -1, false
+	unlocked := -1
+	for i, s := range onceLit.Body.List {
+		var call *ast.CallExpr
+		isDefer := false
+		switch x := s.(type) {
+		case *ast.ExprStmt:
+			call, _ = x.X.(*ast.CallExpr)
+		case *ast.DeferStmt:
+			call, isDefer = x.Call, true
+		}
+		if call == nil {
+			continue
+		}
+		if _, typ, m, ok := syncMethod(info, call); ok && (typ == "Mutex" || typ == "RWMutex") {
+			switch {
+			case m == "Lock" && locked < 0:
+				locked = i
+			case m == "Unlock" && isDefer:
+				deferredUnlock = true
+			case m == "Unlock" && unlocked < 0:
+				unlocked = i
+			}
+		}
+	}
+	if locked >= 0 && idx["callbacks"] >= 0 {
+		r.check(!deferredUnlock && unlocked >= 0 && unlocked < idx["callbacks"], key+"mutex released before callbacks", onceLit.Body.List[idx["callbacks"]].Pos(),
+			"the context mutex is released before the module close callbacks run",
+			"the context mutex taken for the quiescence wait is still held while the module close callbacks run (deferred or late Unlock): a callback that calls back into the context — even just to be refused with 'Context closed' — blocks in the admission method forever, and Close never returns")
+	}
 	// no conditional around them: they must be top-level statements or we do not know the order
 	// close(done) / OnContextClosed nowhere else in the module (non-test files)
 	for _, p := range c.ModulePkgs() {
